@@ -391,10 +391,11 @@ class WBEMSubscriptionManager:
         # that exist on the WBEMServer
         dest_name_pattern = re.compile(
             _format(r'^pywbemdestination:{0}:[^:]*$',
-                    self._subscription_manager_id))
+                    re.escape(self._subscription_manager_id)))
         dest_name_old_pattern = re.compile(
             _format(r'^pywbemdestination:owned:{0}:{1}:[^:]*$',
-                    this_client, self._subscription_manager_id))
+                    re.escape(this_client),
+                    re.escape(self._subscription_manager_id)))
 
         dest_insts = server.conn.EnumerateInstances(
             DESTINATION_CLASSNAME, namespace=interop_ns)
@@ -413,10 +414,11 @@ class WBEMSubscriptionManager:
 
         filter_name_pattern = re.compile(
             _format(r'^pywbemfilter:{0}:[^:]*$',
-                    self._subscription_manager_id))
+                    re.escape(self._subscription_manager_id)))
         filter_name_old_pattern = re.compile(  # before pywbem 1.3
             _format(r'^pywbemfilter:owned:{0}:{1}:[^:]*:[^:]*$',
-                    this_client, self._subscription_manager_id))
+                    re.escape(this_client),
+                    re.escape(self._subscription_manager_id)))
 
         filter_insts = server.conn.EnumerateInstances(
             FILTER_CLASSNAME, namespace=interop_ns)
